@@ -49,14 +49,14 @@ CORPUS: Dict[str, str] = {
     "try": IMPORTS + "try:\n    one = 1\n    two = 2\n    three = 3\nexcept Exception:\n    four = 4\n    five = 5\nmon.write(one)\n",
     "ultrasonics": IMPORTS + "front = Ultrasonic(2, 3)\nrear = Ultrasonic(4, 5)\nleft = Ultrasonic(6, 7)\nright = Ultrasonic(8, 9)\nwhile True:\n    mon.write(right.measure_distance())\n    mon.write(front.measure_distance())\n    mon.write(left.measure_distance())\n    mon.write(rear.measure_distance())\n",
     "ultrasonics_rewired": IMPORTS + "front = Ultrasonic(22, 23)\nrear = Ultrasonic(24, 25, sensor=\"HC-SR04\")\nled = Led(13)\nwhile True:\n    if front.measure_distance() < rear.measure_distance():\n        led.on()\n",
-    "renamed_devices": IMPORTS + "led = Led(5)\nsv = RGBLed(9, 10, 11)\nm = Servo(6)\nbz = DCMotor(2, 3, 4)\nrgb = Buzzer(8)\npot = Button(7)\nmain = LCD(i2c_addr=39)\nwhile True:\n    led.toggle()\n    sv.on(1, 2, 3)\n    m.write(10)\n    bz.set_speed(0.5)\n    rgb.play_tone(440)\n    main.line(0, \"x\")\n    if pot.is_pressed():\n        led.off()\n",
-    "buttons_lcds": IMPORTS + "def hit():\n    mon.write(1)\nokb = Button(2, on_click=hit)\ncancel = Button(3)\nmenu = Button(4)\nmain = LCD(rs=12, en=11, d4=5, d5=6, d6=7, d7=8)\naux = LCD(i2c_addr=39)\nzed = LCD(i2c_addr=38, cols=20, rows=4)\nmain.animate(\"scroll\", 0, \"hello\")\nzed.animate(\"blink\", 1, \"x\")\naux.animate(\"bounce\", 0, \"yo\", loop=True)\nwhile True:\n    if menu.is_pressed():\n        mon.write(cancel.is_pressed())\n",
+    "renamed_devices": IMPORTS + "led = Led(5)\nsv = RGBLed(9, 10, 11)\nm = Servo(6)\nbz = DCMotor(2, 3, 4)\nrgb = Buzzer(8)\npot = Button(7)\npanel = LCD(i2c_addr=39)\nwhile True:\n    led.toggle()\n    sv.on(1, 2, 3)\n    m.write(10)\n    bz.set_speed(0.5)\n    rgb.play_tone(440)\n    panel.line(0, \"x\")\n    if pot.is_pressed():\n        led.off()\n",
+    "buttons_lcds": IMPORTS + "def hit():\n    mon.write(1)\nokb = Button(2, on_click=hit)\ncancel = Button(3)\nmenu = Button(4)\npanel = LCD(rs=12, en=11, d4=5, d5=6, d6=7, d7=8)\naux = LCD(i2c_addr=39)\nzed = LCD(i2c_addr=38, cols=20, rows=4)\npanel.animate(\"scroll\", 0, \"hello\")\nzed.animate(\"blink\", 1, \"x\")\naux.animate(\"bounce\", 0, \"yo\", loop=True)\nwhile True:\n    if menu.is_pressed():\n        mon.write(cancel.is_pressed())\n",
     "functions": IMPORTS + "def add(p, q):\n    return p + q\ndef scale(v):\n    t = v * 1.5\n    return t\ndef both(v):\n    return add(v, 1) + scale(v)\nx = add(1, 2)\ny = add(1.5, 2)\nz = both(3)\nmon.write(x)\nmon.write(y)\nmon.write(z)\n",
     "swap": IMPORTS + "a = 1\nb = 2\na, b = b, a\nwhile True:\n    a, b = b, a + b\n    c, d = a, b\n    mon.write(a)\n",
     "lists": IMPORTS + "items = [1, 2, 3]\nitems.append(4)\nn = len(items)\nsq = [i * i for i in range(4)]\nwhile True:\n    items.append(n)\n    mon.write(items[-1])\n    mon.write(len(sq))\n",
     "devices": IMPORTS + "led = Led(13)\nrgb = RGBLed(9, 10, 11)\nsv = Servo(5)\nm = DCMotor(2, 3, 6)\nbz = Buzzer(8)\npot = Potentiometer(\"A1\")\nwhile True:\n    led.toggle()\n    rgb.fade(1, 2, 3, 100, 4)\n    sv.write(pot.read() / 6)\n    m.ramp(0.5, 100)\n    bz.melody(\"siren\")\n    sleep(10)\n",
     "nested": IMPORTS + "a = analog_read(\"A0\")\nwhile True:\n    if a > 1:\n        for i in range(2):\n            inner = i\n            if inner > 0:\n                deep = inner\n                other = 3\n    else:\n        alt = 2\n    mon.write(a)\n",
-    "shadow_builtins": IMPORTS + "def abs(v):\n    return v\ndef len(v):\n    return 3\ndef max(p, q):\n    return p\ndef min(p, q):\n    return q\ndef int(v):\n    return v\na = analog_read(\"A0\")\nmon.write(abs(a) + len(a) + max(a, 1) + min(a, 2) + int(a))\n",
+    "shadow_builtins": IMPORTS + "def sum(v):\n    return v\ndef len(v):\n    return 3\ndef divmod(p, q):\n    return p\ndef hash(p, q):\n    return q\ndef ord(v):\n    return v\na = analog_read(\"A0\")\nmon.write(sum(a) + len(a) + divmod(a, 1) + hash(a, 2) + ord(a))\n",
     "range_limits": IMPORTS + "a = analog_read(\"A0\")\nitems = [a, 2]\nn = a\nfor i in range(abs(a - 5)):\n    mon.write(i)\nfor j in range(len(items)):\n    items.append(j)\nfor k in range(min(a, 3)):\n    k += 1\n    mon.write(k)\nfor m in range(n):\n    n = n - 1\nwhile True:\n    for step in range(max(a, 2)):\n        step = step * 2\n        mon.write(step)\n",
     "list_returns": IMPORTS + "def ramp(fine):\n    if fine > 2:\n        return [0.25, 0.5, 0.75]\n    return [1, 2, 3]\ndef names(k):\n    if k > 1:\n        return [1, 2]\n    if k > 0:\n        return [1.5]\n    return [True]\nr = ramp(1)\nmon.write(r[0])\nq = names(2)\nmon.write(q[0])\n",
     # a script that is REJECTED while a helper variant is being generated, and a valid one with the same helper name / types
